@@ -339,6 +339,13 @@ func kvMenu(w *world.World, tier Tier) []world.Action {
 			}
 		}
 	}
+	// the value of one pair is byte-equal to the (protected) key of the next pair
+	for _, pk := range []string{spec.TokPrefix + tF, spec.RolePrefix + tF, spec.NoncePrefix + tS, "ELROND"} {
+		acts = append(acts, uni.Call(uni.A0, uni.A0, vmcommon.BuiltInFunctionSaveKeyValue, []byte("j"), []byte(pk), []byte(pk), []byte("v")),
+			uni.Call(uni.A0, uni.A0, vmcommon.BuiltInFunctionSaveKeyValue, []byte("j"), []byte(pk), []byte(pk), []byte{}),
+			uni.Call(uni.A0, uni.A0, vmcommon.BuiltInFunctionSaveKeyValue, []byte(pk), []byte(pk)),
+			uni.Call(uni.A0, uni.A0, vmcommon.BuiltInFunctionSaveKeyValue, []byte("j"), []byte("1"), []byte("i"), []byte(pk), []byte(pk), []byte("v")))
+	}
 	for _, x := range caseValues {
 		acts = append(acts, uni.Call(uni.A0, uni.A0, vmcommon.BuiltInFunctionSaveKeyValue, []byte("k"), x))
 		for _, y := range caseValues {
